@@ -281,6 +281,12 @@ def stepBackend (st : SuiteState) (toks : List String) : SuiteState × String :=
   | ["rev"] => (st, s!"rev {st.b.committed}")
   | ["setrev", r] =>
     ({ st with b := { st.b with committed := atou r, dealt := max st.b.dealt (atou r) } }, "setrev ok")
+  | ["iterfault", _] => (st, "iterfault ok")   -- a transient iterator error is retried by the worker: invisible in the answer
+  | ["lowrev", r] =>
+    -- another node over the same store: fresh sequencer / cache / hub / retry queue, both counters at r
+    let b0 : BState := { store := st.b.store, now := st.b.now, marks := st.b.marks, ring := Ring.new st.b.ring.cap,
+                         committed := atou r, dealt := atou r }
+    ({ st with b := b0 }, "lowrev ok")
   | ["dump"] => (st, s!"dump {dumpStr st.b.store}")
   | ["floor"] =>
     match st.b.store.get (compactKeyOf c) with
